@@ -12,7 +12,8 @@ Adds to the value-flow fragment of Compile0.lean:
         Jump(1)                    start
         Jump(→ failure path)       the "fail jump": every failing test jumps BACK to it
         tests   (per literal:   Duplicate, [Get(k),] Constant(c), Equal(2), Not, JumpIf(→ fail jump))
-        bindings(per binder:    Duplicate, [Get(k),] Store)            — in field order, after ALL tests
+        bindings(per binder:    Duplicate, [Get(k),] Store)            — after ALL tests, in the order of the
+                                                                         binders' NAMES (analyze_pattern sorts them)
         Pop, Tuple(OK), Jump(over the failure path)
         failure path: (Tuple(NIL), Store) × #bindings, Pop, Tuple(NIL)  — the nil fill
 
@@ -83,9 +84,24 @@ def subBinds : Sub → List String
   | .bind x => [x]
   | _ => []
 
-def subsBinds : List Sub → List String
+/-- the binders of a tuple pattern with their field indices, field `k` onwards -/
+def binders : List Sub → Nat → List (String × Nat)
+  | [], _ => []
+  | .bind x :: r, k => (x, k) :: binders r (k + 1)
+  | .wild :: r, k => binders r (k + 1)
+  | .lit _ _ :: r, k => binders r (k + 1)
+
+def insertB (a : String × Nat) : List (String × Nat) → List (String × Nat)
+  | [] => [a]
+  | b :: r => if b.1 < a.1 then b :: insertB a r else a :: b :: r
+
+/-- pattern::analyze_pattern sorts the bindings by name (`all_bindings.sort_by(|a, b| a.0.cmp(&b.0))`):
+slots are handed out in that order, not in field order -/
+def sortB : List (String × Nat) → List (String × Nat)
   | [] => []
-  | s :: r => subBinds s ++ subsBinds r
+  | a :: r => insertB a (sortB r)
+
+def subsBinds (subs : List Sub) : List String := (sortB (binders subs 0)).map (·.1)
 
 def patBinds : Pat1 → List String
   | .top s => subBinds s
@@ -109,11 +125,9 @@ def testsFields : List Sub → Nat → Nat → List Instr
   | .bind _ :: r, k, q => testsFields r (k + 1) q
   | .wild :: r, k, q => testsFields r (k + 1) q
 
-def bindsFields : List Sub → Nat → List Instr
-  | [], _ => []
-  | .bind _ :: r, k => [.duplicate, .get k, .store] ++ bindsFields r (k + 1)
-  | .lit _ _ :: r, k => bindsFields r (k + 1)
-  | .wild :: r, k => bindsFields r (k + 1)
+def bindsCode : List (String × Nat) → List Instr
+  | [] => []
+  | (_, k) :: r => [.duplicate, .get k, .store] ++ bindsCode r
 
 def nilFill : Nat → List Instr
   | 0 => []
@@ -125,7 +139,7 @@ def matchCode (tests binds : List Instr) (nb : Nat) : List Instr :=
 
 def compilePat : Pat1 → List Instr
   | .top s => matchCode (testTop s 2) (bindTop s) (subBinds s).length
-  | .tup subs => matchCode (testsFields subs 0 2) (bindsFields subs 0) (subsBinds subs).length
+  | .tup subs => matchCode (testsFields subs 0 2) (bindsCode (sortB (binders subs 0))) (subsBinds subs).length
 
 mutual
   /-- code and the compile-time locals afterwards -/
@@ -174,11 +188,15 @@ def fieldsPass : List Sub → List Val → Option Bool
   | s :: r, v :: vs => (fieldsPass r vs).map (fun b => subPasses v s && b)
   | _, _ => none
 
-def fieldsBound : List Sub → List Val → List Val
-  | s :: r, v :: vs => subBound v s ++ fieldsBound r vs
-  | _, _ => []
+/-- the values stored for the (sorted) binders -/
+def bindVals : List (String × Nat) → List Val → Option (List Val)
+  | [], _ => some []
+  | (_, k) :: r, vs =>
+    match vs[k]?, bindVals r vs with
+    | some v, some rest => some (v :: rest)
+    | _, _ => none
 
-/-- the verdict and the values stored (one per binder, in order; nil for each on failure) -/
+/-- the verdict and the values stored (one per binder, in NAME order; nil for each on failure) -/
 def evalPat (flow : Val) : Pat1 → Option (Val × List Val)
   | .top s =>
     if subPasses flow s then some (Val.ok, subBound flow s)
@@ -187,7 +205,7 @@ def evalPat (flow : Val) : Pat1 → Option (Val × List Val)
     match flow with
     | .tup _ els =>
       match fieldsPass subs els.toList with
-      | some true => some (Val.ok, fieldsBound subs els.toList)
+      | some true => (bindVals (sortB (binders subs 0)) els.toList).map fun vs => (Val.ok, vs)
       | some false => some (Val.nil, List.replicate (subsBinds subs).length Val.nil)
       | none => none
     | _ => none
